@@ -113,6 +113,9 @@ def leafFromObj (cx : Ctx) (ty : Ty) (o : Obj) : Option (R Node) :=
   | .bstr | .hex => some (do
       let b ← hexOfObj o
       pure (.leaf (.bstr b) .hex))
+  | .rawBstr => some (do
+      let b ← hexOfObj o
+      pure (.leaf (.bstr b) .rawHex))
   | .emptyBstr => some (do
       let _ ← hexOfObj o
       pure .emptyRaw)
@@ -494,7 +497,7 @@ def fromObjTuple (cx : Ctx) : Nat → List (String × Cls) → List (String × O
       pure (n :: more)
     | none =>
       if k.endsWith "*" then do
-        let pre := k.replace "*" ""
+        let pre := replaceStar k ""
         let ns ← fromObjList cx fuel c ((kvs.filter (fun e => e.1.startsWith pre)).map (·.2))
         let more ← fromObjTuple cx fuel es kvs
         pure (ns ++ more)
